@@ -1,7 +1,10 @@
-(* C26 — EOF codec and validation. Only statements; proofs live in Proofs/EofProofs.v and
-   Proofs/EofValidateProofs.v. A byte string is a list of Z with every element in 0..255
+(* C26 — EOF codec and validation. Only statements; proofs live in Proofs/EofProofs.v,
+   Proofs/EofValidateProofs.v and Proofs/EofValidate{Tables,Step,Dispatch,Proofs2,Section,Container,Safe,Total,Total2}.v. A byte string is a list of Z with every element in 0..255
    ([is_bytes]); [Panic] is the model's outcome for an out-of-range slice/index. *)
-From RevmV Require Import Model.Eof Model.EofValidate Spec.EofSafe Proofs.EofProofs Proofs.EofValidateProofs.
+From RevmV Require Import Model.Eof Model.EofValidate Spec.EofSafe Proofs.EofProofs Proofs.EofValidateProofs
+  Proofs.EofValidateStep Proofs.EofValidateDispatch Proofs.EofValidateProofs2 Proofs.EofValidateSection
+  Proofs.EofValidateContainer Proofs.EofValidateSafe Proofs.EofValidateTotal Proofs.EofValidateTotal2.
+From Coq Require Import Lia.
 Local Open Scope Z_scope.
 
 (* Any byte string that decodes re-encodes (encode_slow of header+body) to exactly the same
@@ -82,19 +85,128 @@ Theorem C26_accepted_decode_facts :
       (exists t0, nth_z (types_section (body e)) 0 = Some t0 /\ inputs t0 = 0 /\ outputs t0 = 128).
 Proof. intros bs k Hb. apply is_bytes_ok in Hb. apply validate_accept_facts. assumption. Qed.
 
-(* PARTIAL. A code section that validate_eof_code accepts splits into whole instructions from
-   offset 0 to its end, and every CALLF/JUMPF operand on the way is < number of types entries,
-   every EOFCREATE/RETURNCONTRACT operand is < number of sub-containers.
-   Missing: (1) "every RJUMP/RJUMPI/RJUMPV target is an instruction start inside the section",
-   the stack-height facts and "the last instruction terminates" are not proved (the model
-   computes them; they are checked on every accepted case by Spec/EofSafe.container_safe inside
-   the correspondence check); (2) the lifting from one section to every section of every nested
-   container (validate_eof_codes / validate_eof_inner loops) is not proved. *)
-Theorem C26_validated_section_operands_partial :
+(* ---------------------------------------------------------------------------------------------
+   Validation soundness, for EVERY byte string. The predicates below are defined over the bytes of
+   a code section with a plain instruction walk (Proofs/EofValidateProofs.next_pc: opcode table +
+   immediate sizes, RJUMPV with its table); none of them mentions the validator's per-byte table.
+     reach code p          p is an instruction boundary (walk from offset 0)
+     is_start code p       reach code p /\ 0 <= p < len code
+     jump_targets code p   targets of the RJUMP/RJUMPI/RJUMPV at p, relative to the end of the
+                           instruction (EIP-4200), read from the code bytes
+     term_at code p        the opcode at p is terminating in OPCODE_INFO_JUMPTABLE (STOP, RETURN,
+                           REVERT, INVALID, RETF, JUMPF, RETURNCONTRACT, RJUMP)
+   --------------------------------------------------------------------------------------------- *)
+
+(* A code section that validate_eof_code accepts splits into whole instructions from offset 0 to
+   its end, and every CALLF/JUMPF operand on the way is < number of types entries, every
+   EOFCREATE/RETURNCONTRACT operand is < number of sub-containers. (First, weaker form; kept
+   because its predicate is a forward derivation; superseded by C26_validated_section_walk_safe.) *)
+Theorem C26_validated_section_operands :
   forall code ds idx ncont types tr tr',
     is_bytes code = true -> validate_eof_code code ds idx ncont types tr = VOk tr' ->
     walk_ok code (len types) ncont 0.
 Proof. intros code ds idx ncont types tr tr' Hb. apply is_bytes_ok in Hb. apply validate_eof_code_walk. assumption. Qed.
+
+(* (1) An accepted code section is [walk_safe]: the end of the section is an instruction boundary;
+   every instruction start carries a defined, EOF-enabled opcode whose immediates (and RJUMPV
+   table) lie inside the section, with CALLF/JUMPF operands < number of types entries,
+   EOFCREATE/RETURNCONTRACT operands < number of sub-containers, DATALOADN operand + 32 <= data
+   size, and every relative-jump target an instruction start of the same section; the last
+   instruction is terminating. *)
+Theorem C26_validated_section_walk_safe :
+  forall code ds idx ncont types tr tr',
+    is_bytes code = true -> validate_eof_code code ds idx ncont types tr = VOk tr' ->
+    walk_safe code (len types) ncont ds.
+Proof. intros code ds idx ncont types tr tr' Hb. apply is_bytes_ok in Hb. apply validate_eof_code_walk_safe. assumption. Qed.
+
+(* the two clauses of (1) asked for most often, unfolded: no relative jump into immediate bytes or
+   out of the section, and execution cannot run off the end of the section *)
+Theorem C26_validated_jump_targets_and_last_instruction :
+  forall code ds idx ncont types tr tr',
+    is_bytes code = true -> validate_eof_code code ds idx ncont types tr = VOk tr' ->
+    (forall p, is_start code p ->
+       exists tg, jump_targets code p = Some tg /\ forall t, In t tg -> is_start code t) /\
+    (exists p, is_start code p /\ next_pc code p = Some (len code) /\ term_at code p).
+Proof. intros code ds idx ncont types tr tr' Hb. apply is_bytes_ok in Hb. apply validate_eof_code_jump_targets. assumption. Qed.
+
+(* (2) Stack heights. For an accepted section there is an assignment of intervals [lo p, hi p] to
+   instruction starts (the validator's recorded smallest/biggest) that contains the entry height
+   (= inputs), is closed under fall-through and relative jumps with the height change of the
+   instruction, and satisfies at every instruction start: items required <= lo, hi <= declared
+   max_stack_size, CALLF only to returning sections with hi - inputs + callee max_stack <= 1024,
+   JUMPF with room for the callee and (to a returning section) outputs(callee) <= outputs and
+   hi <= outputs + inputs(callee) - outputs(callee), RETF with hi <= outputs <= lo; a
+   non-returning section (outputs = 0x80) contains no RETF and no JUMPF to a returning section. *)
+Theorem C26_validated_section_stack_certificate :
+  forall code ds idx ncont types tr tr',
+    is_bytes code = true -> validate_eof_code code ds idx ncont types tr = VOk tr' ->
+    exists tt, nth_z types idx = Some tt /\ exists lo hi, stack_cert code types tt lo hi.
+Proof.
+  intros code ds idx ncont types tr tr' Hb H. apply is_bytes_ok in Hb.
+  destruct (validate_eof_code_sound _ _ _ _ _ _ _ Hb H) as ((_ & X) & _). exact X.
+Qed.
+
+(* The global dataflow statement: [hreach code types tt p h] = "some execution of the section,
+   entered with [inputs] items, arrives at instruction p with h items above the frame base"
+   (an instruction needs [req] items and changes the height by [diff]; a CALLF is taken to return
+   with exactly the callee's declared outputs - which is this very theorem's RETF clause for the
+   callee). Every such (p, h) of an accepted section satisfies: h <= max_stack_size; the
+   instruction's required items are present (no underflow); the CALLF/JUMPF room and output rules
+   hold for the actual height h; at RETF the height is exactly [outputs]. *)
+Theorem C26_validated_stack_heights :
+  forall code ds idx ncont types tr tr',
+    is_bytes code = true -> validate_eof_code code ds idx ncont types tr = VOk tr' ->
+    exists tt, nth_z types idx = Some tt /\
+      (outputs tt = 128 -> forall p, is_start code p -> ~ instr_returns code types p) /\
+      forall p h, hreach code types tt p h -> is_start code p ->
+        h <= max_stack_size tt /\
+        exists req diff, instr_stack code types tt p = Some (req, diff) /\ req <= h /\
+          instr_limits code types tt p h /\ (get code p = Some OP_RETF -> h = outputs tt).
+Proof. intros code ds idx ncont types tr tr' Hb. apply is_bytes_ok in Hb. apply validate_eof_code_heights. assumption. Qed.
+
+(* (3) Lifting to the whole container and to all nested containers. [container_valid e k]
+   (Proofs/EofValidateContainer.v) holds when, for some list cts of kinds of the sub-containers
+   ([codes_safe e k cts]): types count = code count >= 1, first section (0 inputs, 0x80); EVERY
+   code section is [section_ok] (= (1) and (2) above); every EOFCREATE operand names a
+   sub-container of kind ReturnContract, every RETURNCONTRACT operand one of kind ReturnOrStop;
+   RETURNCONTRACT occurs only in a container of kind ReturnContract and RETURN/STOP only in one of
+   kind ReturnOrStop (the kind is k when k is given); a container of kind ReturnContract has its
+   data section filled; and EVERY sub-container decodes and is container_valid with its kind,
+   recursively. *)
+Theorem C26_validated_container :
+  forall bs k, is_bytes bs = true -> validate_raw_eof_inner_r bs k = VOk tt ->
+    exists e, decode bs = Ok e /\ is_data_filled (body e) = true /\ container_valid e k.
+Proof. intros bs k Hb. apply is_bytes_ok in Hb. apply validate_raw_eof_inner_sound. assumption. Qed.
+
+Theorem C26_container_valid_unfold :
+  forall e k, container_valid e k ->
+    exists cts, codes_safe e k cts /\
+      Forall2 (fun c ct => exists e', decode c = Ok e' /\ container_valid e' (Some ct))
+              (container_section (body e)) cts.
+Proof. exact container_valid_unfold. Qed.
+
+(* (4) The single statement against the independent scanner of Spec/EofSafe.v, with the fuel the
+   correspondence check uses: every accepted byte string decodes to a container on which
+   [container_safe] holds (all code sections of all nested containers: whole instructions, jump
+   targets on instruction starts, operands in range, last instruction terminating, sub-containers
+   decode, EOFCREATE targets have filled data). *)
+Theorem C26_validated_container_safe :
+  forall bs k, is_bytes bs = true -> validate_raw_eof_inner_r bs k = VOk tt ->
+    exists e, decode bs = Ok e /\ container_safe (S (length bs)) e = true.
+Proof. intros bs k Hb. apply is_bytes_ok in Hb. apply validate_raw_eof_inner_container_safe. assumption. Qed.
+
+(* Validation is total on the model: no index of the validator (code bytes, per-byte table, types,
+   code sections, access-tracker vectors, RJUMPV table, the unsafe read_u16/read_i16) is ever out
+   of range, and the fuel the model gives its three loops (length code / S (number of sections) /
+   S (length raw)) always suffices - the model's VPanic outcome is unreachable, for every byte
+   string and every expected kind. *)
+Theorem C26_validation_never_panics :
+  forall bs k, is_bytes bs = true ->
+    validate_raw_eof_inner_r bs k <> VPanic /\ validate_raw_eof_inner bs k <> VPanicked.
+Proof.
+  intros bs k Hb. apply is_bytes_ok in Hb. pose proof (validate_raw_eof_inner_np bs k Hb) as N.
+  split; [exact N|]. unfold validate_raw_eof_inner. destruct (validate_raw_eof_inner_r bs k); congruence.
+Qed.
 
 (* non-vacuity *)
 Definition ex_container : bytes :=
@@ -135,4 +247,36 @@ Proof.
   eapply walk_step with (j := 3); [reflexivity|vm_compute; reflexivity|lia| |].
   { intros op E. vm_compute in E. inversion E. split; intros [?|?]; discriminate. }
   apply walk_end. vm_compute. discriminate.
+Qed.
+
+(* two code sections (RJUMPI, RJUMPV, CALLF 1, RETURNCONTRACT 0 / PUSH0 RETF) and one nested
+   runtime container (STOP): accepted as init code, rejected as runtime code
+   (SubContainerCalledInTwoModes) *)
+Definition ex_code0 : bytes := [95; 225;0;1; 91; 95; 226;1;0;0;0;1; 91; 227;0;1; 95; 238;0].
+Definition ex_types : list TypesSection := [mkTypes 0 128 2; mkTypes 0 1 1].
+Definition ex_nested : bytes :=
+  [239;0;1; 1;0;8; 2;0;2;0;19;0;2; 3;0;1;0;20; 4;0;0; 0;  0;128;0;2;  0;1;0;1]
+  ++ ex_code0 ++ [95; 228]
+  ++ [239;0;1; 1;0;4; 2;0;1;0;1; 4;0;0; 0; 0;128;0;0; 0].
+Example C26_example_accepted_nested :
+  is_bytes ex_nested = true /\
+  validate_raw_eof_inner_r ex_nested (Some ReturnContract) = VOk tt /\
+  validate_raw_eof_inner ex_nested (Some ReturnOrStop) = VKnown (200 + 30) /\
+  match decode ex_nested with Ok e => container_safe (S (length ex_nested)) e | _ => false end = true /\
+  (exists tr', validate_eof_code ex_code0 0 0 1 ex_types
+                   (mkTracker (Some ReturnContract) [true; false] [0] [None]) = VOk tr') /\
+  jump_targets ex_code0 1 = Some [5] /\ jump_targets ex_code0 6 = Some [12; 13] /\
+  hreach ex_code0 ex_types (mkTypes 0 128 2) 1 (0 + 1).
+Proof.
+  split; [reflexivity|]. split; [vm_compute; reflexivity|]. split; [vm_compute; reflexivity|].
+  split; [vm_compute; reflexivity|]. split; [eexists; vm_compute; reflexivity|].
+  split; [reflexivity|]. split; [reflexivity|].
+  eapply hr_next with (p := 0) (req := 0).
+  - constructor.
+  - split; [constructor|vm_compute; split; congruence].
+  - vm_compute. reflexivity.
+  - lia.
+  - intros (op & o & E1 & E2 & E3). vm_compute in E1. inversion E1. subst op.
+    vm_compute in E2. inversion E2. subst o. discriminate.
+  - vm_compute. reflexivity.
 Qed.
